@@ -1,15 +1,18 @@
 """C07 Cancellation stops work in the cancelled subtree only — E1 family: the real code over minisql vs the Lean model BatchDB, oracle `oracles.c07`."""
-from ..batchdb.prop import E1Prop
+from ..batchdb import actors
+from ..batchdb.prop import ActorCasesMixin, E1Prop
 
 
-class C07(E1Prop):
+class C07(ActorCasesMixin, E1Prop):
+    actor_share = 0.3
+    actor_flavour = 'c07'
     id = 'C07'
     title = 'Cancellation stops work in the cancelled subtree only'
     design_ref = 'DESIGN.md §4 C07 (Engine E1)'
     oracle_name = 'c07'
     adversarial_share = 0.0
     nontrivial_tags = ['cancel', 'repeat-cancel', 'cancel-ancestor-after-descendant']
-    level_text = 'Lean: no_start_after_cancel, no_job_insert_under_cancelled, no_group_insert_under_cancelled, no_update_on_cancelled_batch, cancel_idempotent, siblings untouched, requests_answered (Props/C07.lean). Oracle after every op: no non-always-run job under a cancelled group moves into Creating/Running; no job/group/update appears beneath a cancelled group; a repeated cancel changes no table; cancel touches only the subtree and its ancestors; schedule/creating/started requests are answered without MySQL error; is_job_group_cancelled() agrees with the ancestor walk on every group.'
+    level_text = 'Lean: no_start_after_cancel, no_job_insert_under_cancelled, no_group_insert_under_cancelled, no_update_on_cancelled_batch, cancel_idempotent, siblings untouched, requests_answered (Props/C07.lean). Oracle after every op: no non-always-run job under a cancelled group moves into Creating/Running; no job/group/update appears beneath a cancelled group; a repeated cancel changes no table; cancel touches only the subtree and its ancestors; schedule/creating/started requests are answered without MySQL error; is_job_group_cancelled() agrees with the ancestor walk on every group. A third of the cases run the REAL canceller loops (ready, creating, running, orphaned) and schedulers on committed submissions with sibling groups and a second batch of the same user after one group was cancelled: a canceller pass changes only jobs that are cancelled (non-always_run, marked or under a cancelled group); at quiescence every committed job is terminal.'
     level_note = ('Partial: the server is harness/minisql (semantics list in trusted_base), every transaction is one atomic step, histories are generated '
                   '(not exhaustive); the Lean model is tied to the code only as far as the compared answers and dumps show. '
                   'Known findings of the unchanged tree are listed in known_findings.json and printed as KNOWN-FINDING.')
@@ -20,6 +23,10 @@ class C07(E1Prop):
 
     def nontrivial(self, r):
         return any(t in r.tags for t in self.nontrivial_tags)
+
+
+    def actor_checks(self):
+        return ([actors.cancel_scope, lambda w, before, after: actors.safety(after)], [lambda w, v: actors.liveness(v, {})])
 
 
 PROP = C07()
